@@ -308,7 +308,7 @@ PROPERTY = {
         "reset() is compared differentially (each member's own reset() on the twin)",
     ],
     "subchecks": [
-        SubCheck("streaming", check_ensemble, strategy=strat_ensemble("stream"), nontrivial=lambda L: "nontrivial" in L, quick=300, thorough=5000, shards_quick=16, describe=_desc),
-        SubCheck("batch", check_ensemble, strategy=strat_ensemble("batch"), nontrivial=lambda L: "nontrivial" in L, quick=200, thorough=4000, shards_quick=8, describe=_desc),
+        SubCheck("streaming", check_ensemble, strategy=strat_ensemble("stream"), nontrivial=lambda L: "nontrivial" in L, quick=300, thorough=15000, shards_quick=16, describe=_desc),
+        SubCheck("batch", check_ensemble, strategy=strat_ensemble("batch"), nontrivial=lambda L: "nontrivial" in L, quick=200, thorough=12000, shards_quick=8, describe=_desc),
     ],
 }
